@@ -73,6 +73,7 @@ class Obs:
         self.law = []
         self.checks = 0
         self.allocated = {}        # pack name -> actors that created it
+        self.shadow = {}           # id(collection) -> disk nodes it last saw
 
 
 def _read_nodes(coll, shared):
@@ -107,7 +108,10 @@ def _patches(obs):
         ctx = obs.ctx.get(ft.current_actor())
         if ctx is not None and "disk" not in ctx:
             ctx["disk"] = _read_nodes(self, obs.shared)
-            ctx["at_load"] = set(self._packs_at_load)
+            # what this object last saw on disk, as recorded by the harness at
+            # that moment (not the object's own _packs_at_load bookkeeping)
+            ctx["at_load"] = set(obs.shadow.get(id(self),
+                                                self._packs_at_load))
             ctx["mine"] = {(n, b" ".join(b"%d" % s for s in sizes))
                            for n, sizes in self._names.items()}
 
@@ -132,7 +136,16 @@ def _patches(obs):
                     "mine": sorted(n for n, _ in ctx["mine"]),
                     "written": sorted(n for n, _ in written),
                     "expected": sorted(n for n, _ in expected)})
+            obs.shadow[id(self)] = written
         return o_unlock(self)
+
+    o_ensure = RPC.ensure_loaded
+
+    def ensure_loaded(self):
+        first = o_ensure(self)
+        if first and ft.current_actor() is not None:
+            obs.shadow[id(self)] = _read_nodes(self, obs.shared)
+        return first
 
     o_alloc = RPC.allocate
 
@@ -145,8 +158,10 @@ def _patches(obs):
     def reload(self):
         loaded = self._names is not None      # not the first read
         r = o_reload(self)
-        if r and loaded and ft.current_actor() is not None:
-            obs.reloads += 1
+        if ft.current_actor() is not None:
+            obs.shadow[id(self)] = _read_nodes(self, obs.shared)
+            if r and loaded:
+                obs.reloads += 1
         return r
 
     def restart_a(self):
@@ -162,6 +177,7 @@ def _patches(obs):
             mock.patch.object(RPC, "_unlock_names", unlock_names),
             mock.patch.object(RPC, "reload_pack_names", reload),
             mock.patch.object(RPC, "allocate", allocate),
+            mock.patch.object(RPC, "ensure_loaded", ensure_loaded),
             mock.patch.object(RPC, "_restart_autopack", restart_a),
             mock.patch.object(RPC, "_restart_pack_operations", restart_p)]
 
